@@ -285,7 +285,9 @@ func checkC03(w *World, r *Report) {
 	// "the thrown value is delivered to the nearest enclosing catch clause": the handler's scope is built by the
 	// binder, which binds the catch symbol - whatever its name - to the caught object
 	r.include("C03.catch-", "C01.", "the catch symbol is bound to the caught object like any parameter to its argument", checkC01, func(rule string) bool {
-		return rule == "C01.binds"
+		// (and a try form standing anywhere in a call form - in operator position too - is evaluated once, with the
+		// rest of the call: its body, handler and finally run once per evaluation of the call)
+		return rule == "C01.binds" || rule == "C01.order"
 	})
 	tryShapeRule(m, r)
 	catchPresentRule(m, r, "C03.delivered")
@@ -304,7 +306,9 @@ func checkC03(w *World, r *Report) {
 	r.floor("C03.panic-conversion", "binder adapters", nad, 2)
 	// ... "that wraps the original": errors.Is / errors.As / unwrap-error reach the panic value of a builtin
 	r.include("C03.builtin-", "C20.", "a panic of a builtin reaches catch as an error that still wraps the panic value (the original stays reachable with errors.Is / unwrap-error)", checkC20, func(rule string) bool {
-		return rule == "C20.panic"
+		// (and an error object a handler hands back as a value stays a value on its way through Apply: it is not
+		// thrown a second time)
+		return rule == "C20.panic" || rule == "C20.apply-verbatim"
 	})
 	ruleWrap(w, r)
 	rulePropagate(m, r)
@@ -1044,6 +1048,18 @@ func checkC08(w *World, r *Report) {
 	}
 	r.floor("C08.iter", "evaluating calls before the dispatch", n, 3)
 	macroTailRule(w, r, "C08.lisp")
+	// "loops of any length complete": the evaluator spends no budget per iteration - no counter of its own is
+	// compared with a fixed limit (a guard against runaway recursion that is charged per tail call, or per macro
+	// expansion, ends long loops that use no stack at all), and it keeps no such counter at package level
+	r.rule("C08.no-budget", "no function of the evaluator (EVAL, eval_ast, the body helper, macroexpand and the functions of the package they are built from) compares an integer count with a constant limit, and the evaluator's package keeps no counters: a tail-recursive loop is not ended by how many iterations, calls or expansions it has made")
+	{
+		var efs []*ssa.Function
+		for _, f := range []*ssa.Function{m.EVAL, m.evalAst, m.doFn, m.macroexpand} {
+			efs = append(efs, w.withPkgHelpers(f)...)
+		}
+		countLimitScan(w, r, "C08.no-budget", efs, "the evaluator", true)
+		sharedStateRule(w, r, "C08.no-budget", "")
+	}
 	stepperDefaultRule(w, r, m, "C08.stepper-default")
 	// closures stay closures: the loop continues only for MalFunc operators
 	r.rule("C08.no-trampoline", "no builtin creates, while a program runs, a Go function value (types.Func) whose body applies a lisp closure it captured: such a wrapper hides the closure from the evaluation loop, so every tail call through it nests Apply and EVAL on the host stack (a closure with metadata, a decorated closure must stay a MalFunc)")
@@ -1347,6 +1363,31 @@ func checkC12(w *World, r *Report) {
 			}
 		}
 		r.check(okSet, "C12.flag", m.EVAL, "value bound by defmacro", token.NoPos, "SetMacro() of the evaluated function", "defmacro does not bind the macro-flagged copy of the evaluated function")
+		// ... and the value of the defmacro form is the macro it bound (Set's own result, or the marked copy), not
+		// the closure the operand evaluated to: (def m2 (defmacro m1 ...)) makes m2 a macro too
+		if reg, ok := m.regions["defmacro"]; ok {
+			for _, rt := range m.returns(m.EVAL) {
+				ret := rt[0].(*ssa.Return)
+				ev, _ := rt[2].(ssa.Value)
+				if !reg[ret.Block()] || (ev != nil && !isNilConst(ev)) {
+					continue
+				}
+				v := rt[1].(ssa.Value)
+				okVal := false
+				for _, lf := range append([]ssa.Value{v}, m.valuesIn(v, "defmacro", 0)...) {
+					lf = unboxed(lf)
+					if c, isCall := lf.(*ssa.Call); isCall {
+						if c.Call.IsInvoke() && c.Call.Method.Name() == "Set" {
+							okVal = true
+						}
+						if sc := c.Call.StaticCallee(); sc != nil && (sc.Name() == "SetMacro" || m.helperOf(sc) != nil || (sc.Pkg == m.EVAL.Pkg && !m.isCore(sc))) {
+							okVal = true
+						}
+					}
+				}
+				r.check(okVal, "C12.flag", m.EVAL, "value of the defmacro form", ret.Pos(), "the macro it bound (the scope's Set result)", "defmacro answers with "+describeVal(e, v, 0)+", the closure without the macro flag: a name given the value of a defmacro form is an ordinary function")
+			}
+		}
 		// one binding, of the marked closure: the name never holds the unmarked function, not even for a moment
 		r.rule("C12.defmacro-once", "defmacro evaluates its function operand itself (not a def form built around it) and binds the name exactly once, to the marked copy: another evaluation on the same environment never finds the name bound to the unmarked function, and a rejected definition leaves an earlier macro in place")
 		sets, nev := 0, 0
